@@ -991,7 +991,15 @@ func newHist(b run.Batch, r *ev.Result, idx int) *hist {
 		r.Inconc("cannot prepare server directory: " + err.Error())
 		return nil
 	}
-	h.World = &drv.World{Srv: e, GCA: refenc.GenKey(rng), Devs: map[uint32]*drv.Dev{}, Rng: rng}
+	gca := refenc.GenKey(rng)
+	if rng.Intn(3) == 0 {
+		// a GCA key whose last byte looks like a line ending, padding or text to a loader that does more
+		// than read 32 raw bytes (once in a few hundred installations the key ends in such a byte)
+		tail := []byte{0x0a, 0x0d, 0x00, 0x20, 0x09, 0x30, 0xff}[rng.Intn(7)]
+		gca = drv.GenKeyEnding(rng, tail)
+		r.Count("gca_key_with_special_last_byte", 1)
+	}
+	h.World = &drv.World{Srv: e, GCA: gca, Devs: map[uint32]*drv.Dev{}, Rng: rng}
 	if !h.seeded {
 		r.Count("histories.server_key_generated_by_server", 1)
 	}
